@@ -246,7 +246,25 @@ def check_q5(ctx) -> None:
     ctx.check(len(op) == 1, 'Q5', 'work_package/reads-own-result', w.where, 'output values are not read from this iteration\'s own result file')
 
 
+def check_q6(ctx) -> None:
+    """One task per iteration: batching (chunksize > 1) makes a failing iteration abort the rest of its batch."""
+    from rules.mc_common import pool_workers
+    for w, sub, ctor in pool_workers(ctx.repo):
+        kws = {k.arg: k.value for k in sub.keywords}
+        cs = kws.get('chunksize')
+        ok = cs is None or (isinstance(cs, ast.Constant) and cs.value == 1)
+        ctx.check(ok, 'Q6', f'main/{norm(sub.func)}/one-task-per-iteration', f'{w.module.rel}:{sub.lineno}',
+                  f'iterations are handed to the pool in batches (chunksize={norm(cs) if cs is not None else 1}): an iteration that '
+                  f'raises aborts every later iteration of its batch, so successful inputs get no row',
+                  fact='one pool task per iteration')
+        if sub.func.attr == 'map':
+            n_iter = [a for a in sub.args[1:]]
+            ctx.check(len(n_iter) == 1, 'Q6', f'main/{norm(sub.func)}/single-iterable', f'{w.module.rel}:{sub.lineno}',
+                      'executor.map is not called with exactly one iterable of per-iteration argument lists')
+
+
 def run(ctx) -> None:
+    ctx.rule('Q6', 'each iteration is its own pool task (no chunking), so a failing iteration affects only its own row')
     ctx.rule('Q1', 'each requested output contributes exactly one token to the row on every path; header and row iterate the '
                    'same lists in the same order; pass_list packing positions equal the unpacking positions')
     ctx.rule('Q2', 'the row is appended by a single write inside the lock; a failed acquisition does not drop it silently')
@@ -260,5 +278,6 @@ def run(ctx) -> None:
     check_q3(ctx)
     check_q4(ctx)
     check_q5(ctx)
+    check_q6(ctx)
     ctx.undecided('re-simulating a row reproduces its values (needs execution)', 'pylocker behaviour under contention',
                   'numpy reducer numerics')
